@@ -187,9 +187,15 @@ def jobs(tier):
                                               fix=dict(hvar=0),
                                               qshapes=['A', 'B', 'Any', 'G<A>', 'G<*>', 'H<A>', 'H<*>', 'TV', 'TU']))]
     else:
-        plan = [('find_subtypes', dict(nmax=3, depth=1, with_d=False)),
-                ('find_irrelevant_type', dict(nmax=2, depth=1, with_d=True)),
-                ('find_subtypes', dict(nmax=2, depth=2, with_d=False, fixed_n=2, vary_bounds=False))]
+        plan = [('find_subtypes', dict(nmax=3, depth=1, with_d=False, fixed_n=3, builtins=False)),
+                ('find_subtypes', dict(nmax=2, depth=1, with_d=False)),
+                ('find_irrelevant_type', dict(nmax=2, depth=1, with_d=True, fixed_n=2, vary_bounds=False, builtins=False)),
+                ('find_subtypes', dict(nmax=2, depth=2, with_d=False, fixed_n=2, vary_bounds=False, builtins=False,
+                                       fix=dict(hvar=0, ext=[1])))]
+    plan.append(('find_subtypes', dict(nmax=2, depth=2, with_d=False, fixed_n=2, vary_bounds=False, builtins=False,
+                                       fix=dict(gvar=2, hvar=0),
+                                       qshapes=['H<in H<out B>>', 'G<H<in Any>>', 'H<in G<out A>>', 'H<out H<in B>>',
+                                                'G<in H<out A>>'])))
     for fn, prm in plan:
         out.append(Job('%s-n%d-depth%d%s%s' % (fn, prm['nmax'], prm['depth'], '-D' if prm['with_d'] else '',
                                               '-fix' + '_'.join(sorted(prm['fix'])) if prm.get('fix') else ''), h_search, dict(fn=fn, **prm),
